@@ -30,6 +30,8 @@ package directinvoke
 //@   modifies nothing
 //@   ensures r0 <==> (maxDirectResponseSize == -1 || invokeResponseMode == "Streaming")
 
+//@ func renderInternalServerError
+//@   modifies httpOut
 //@ func renderBadRequest
 //@   modifies httpOut
 //@   ensures [400] ghost(httpStatus) == 400 && ghost(httpStatusWriter) == ref(w)
@@ -93,9 +95,16 @@ package directinvoke
 
 //@ func parseFunctionResponseMode
 //@   modifies nothing
+// C20 ("an error type reported by the runtime is passed on only if it has exactly the form Runtime.X or Function.X"): a streaming
+// runtime reports a mid-stream error in the trailer of its /response; what is copied into the invoker's trailer of the same name
+// is that value as it came (the allow-list is applied to the header of /error, /init/error and /restore/error only)
+//@ event RuntimeErrorTypeTrailerRead = ret net/http.(Header).Get when a1 == FunctionErrorTypeTrailer
+//@ event ErrorTypeTrailerSet = call net/http.(Header).Set when a1 == FunctionErrorTypeTrailer
+//@ event ResetInterruptsTheCopy = recv call:interruptedResponseChan
 //@ func sendStreamingInvokeResponse
 //@   extfunc cancel
 //@   modifies directSend, directEvents
+//@   ensures [C20: an-error-type-the-runtime-reports-in-the-trailer-is-sanitised] delta(RuntimeErrorTypeTrailerRead) == 1 && lastret(RuntimeErrorTypeTrailerRead) != "" && delta(ErrorTypeTrailerSet) == 1 ==> inre(lastarg(ErrorTypeTrailerSet, 2), "^(Runtime|Function)\\.[A-Z][a-zA-Z]*$")
 //@ func sendStreamingInvokeErrorResponse
 //@   extfunc cancel
 //@   modifies directSend, directEvents
